@@ -56,7 +56,18 @@ def flags_from(names):
     return {m[c] for c in names}
 
 
-def new_key(alg, label, created_us=None):
+def created_datetime(created_us, tz=None):
+    """The same instant spelled as a UTC-aware, otherwise-aware or naive datetime."""
+    d = dt_from_us(created_us).replace(microsecond=0)
+    if tz in (None, 'utc'):
+        return d
+    if tz == 'naive_utc':
+        return d.replace(tzinfo=None)          # naive, fields read as UTC (PGPy warns and treats it so)
+    h, m = tz
+    return d.astimezone(_dt.timezone(_dt.timedelta(hours=h, minutes=m)))
+
+
+def new_key(alg, label, created_us=None, created_tz=None):
     """Generate a bare PGPKey; key material comes from the simulator, keyed by label."""
     import pgpy
     rnd = seams.rnd()
@@ -64,7 +75,7 @@ def new_key(alg, label, created_us=None):
     rnd.set_step('keygen:' + label)
     try:
         pk, size = alg_params(alg)
-        created = dt_from_us(created_us) if created_us is not None else None
+        created = created_datetime(created_us, created_tz) if created_us is not None else None
         return pgpy.PGPKey.new(pk, size, created=created)
     finally:
         rnd.set_step(prev)
@@ -87,7 +98,7 @@ def build_key(spec, label):
     clock = seams.clock()
     if spec.get('created_us') is not None:
         clock.set(spec['created_us'])
-    key = new_key(spec['alg'], label, spec.get('created_us'))
+    key = new_key(spec['alg'], label, spec.get('created_us'), spec.get('created_tz'))
     usage = flags_from(spec.get('usage', 'CS' if can_sign(spec['alg']) else 'E'))
     first = True
     for u in spec.get('uids', [['User ' + label, '', label + '@example.org']]):
@@ -104,7 +115,7 @@ def build_key(spec, label):
         key.add_uid(uid, **kw)
         first = False
     for i, sk in enumerate(spec.get('subkeys', [])):
-        sub = new_key(sk['alg'], '%s.sub%d' % (label, i), spec.get('created_us'))
+        sub = new_key(sk['alg'], '%s.sub%d' % (label, i), sk.get('created_us', spec.get('created_us')), sk.get('created_tz'))
         su = flags_from(sk.get('usage', 'E' if not can_sign(sk['alg']) else 'S'))
         key.add_subkey(sub, usage=su)
     return key
